@@ -5,9 +5,9 @@
    and strand matches; trace_ok / ans_ok (Proofs/C16_b.v) = every answer of a run is the brute force answer over
    everything added so far (multiset equality for the list valued default lookup, duplicate free set equality for
    the set valued calls). *)
-From Coq Require Import ZArith List Bool Permutation.
+From Coq Require Import ZArith List Bool Permutation Lia.
 Import ListNotations.
-From SCMO Require Import Gen.GenFeatures Model.C16 Proofs.C16_a Proofs.C16_b Proofs.C16_c.
+From SCMO Require Import Gen.GenFeatures Model.C16 Model.C16a Model.C16x Proofs.C16_a Proofs.C16_b Proofs.C16_c Proofs.C16_x Proofs.C16_y Proofs.C16_z.
 Open Scope Z_scope.
 
 (* T: the lookup kernel, index construction pieces, block end and switches REGENERATED from the current source
@@ -112,3 +112,142 @@ Example C16_example :
     [ROk []; ROk []; ROk []; ROk []; ROk []; ROk [a; a; b]; ROk [b]; ROk [a]; ROk []; ROk [a; a; b]; ROk [c]; ROk []].
 Proof. vm_compute. repeat split. Qed.
 Print Assumptions C16_example.
+
+(* ===================================================================== extension (Model/C16x.v): loaders, nearest lookups, BRK
+   strings are lists of character codes; [code] is ANY numbering of the strings the container uses as contig / name / data keys.
+   xrun = the machine of Model/C16.v extended with findNearestLeftFeature / findNearestRightFeature / findNearestFeature (with its
+   own lru_cache) / findFeaturesBetweenBRK / loader calls; xcfg_src = the switches of the CURRENT source (cfg_fixed, g_autosort_brk,
+   g_clear_near); xtrace_ok / xans_ok (Proofs/C16_y.v): every answer is the specification over everything added or loaded so far *)
+
+(* list.sort() on feature tuples is canonical: the index depends on the multiset of features only, not on the order of addition *)
+Theorem C16_sort_canonical : forall l l', Permutation l l' -> sort_feats l = sort_feats l'.
+Proof. exact sort_feats_perm. Qed.
+Print Assumptions C16_sort_canonical.
+
+(* loadGTF (default arguments) on the printed records (1 based inclusive coordinates, gene_id last among any other attributes):
+   exactly those features, in file order, no exception *)
+Theorem C16_gtf_roundtrip : forall code recs added,
+  gtf_compile code gpar_default added (map print_gtf recs) = (map (frec_op code) recs, None).
+Proof. exact gtf_roundtrip. Qed.
+Print Assumptions C16_gtf_roundtrip.
+
+(* select_feature_type: the lines filtered out are exactly those of other types - for every other argument (contig, thirdOnly,
+   exon_select, identifierFields, ignChr, offset, region, head, remapKeys) and every file, raising ones included *)
+Theorem C16_gtf_select_type : forall code p tys recs added,
+  gtf_compile code (set_select p (Some tys)) added recs =
+  gtf_compile code (set_select p None) added (filter (fun r => str_in (gr_type r) tys) recs).
+Proof. exact gtf_select. Qed.
+Print Assumptions C16_gtf_select_type.
+
+(* file records -> loadGTF -> sort -> findFeaturesAt = the records overlapping the point (on the machine of the current source) *)
+Theorem C16_gtf_end_to_end : forall code recs c x q, (forall r, In r recs -> frec_wf r) ->
+  let loaded := gtf_compile code gpar_default 0 (map print_gtf recs) in
+  exists l, xrun xcfg_src xinit [XLoad (fst loaded) (snd loaded); XB (At c x q 0)] = [ROk []; ROk l] /\
+            Permutation l (filter (hit x q) (feats_of c (map (frec_feat code) recs))).
+Proof. exact gtf_end_to_end. Qed.
+Print Assumptions C16_gtf_end_to_end.
+
+(* T: the two switches of the extension read from the current source *)
+Theorem C16_x_source_switches : g_clear_near = true /\ xcfg_src = xg_of g_autosort_brk.
+Proof. exact (conj clear_near_shape xcfg_src_shape). Qed.
+Print Assumptions C16_x_source_switches.
+
+(* every history of addFeature / sort / loader calls / the lookups of Model/C16.v / findNearest{Left,Right,}Feature /
+   findFeaturesBetweenBRK on the machine of the CURRENT source, both lru caches included: every answer is the specification over
+   everything added so far.  For findNearestRightFeature and BRK that is brute force; for findNearestLeftFeature / findNearestFeature
+   it is the answer of a FRESH index over everything added so far (no stale state), see the _refuted theorems for what that answer is.
+   Full statement = C16_xhistory_repaired (no guard).  With the code as it is (g_autosort_brk = false) xhist_wfb demands that a
+   findFeaturesBetweenBRK call is not the first lookup after an addFeature: PARTIAL in exactly that respect (C16_brk_stale_refuted) *)
+Theorem C16_xhistory_partial : forall ops, xhist_wfb g_autosort_brk ops = true -> xtrace_ok [] ops (xrun xcfg_src xinit ops).
+Proof. exact xhistory_src. Qed.
+Print Assumptions C16_xhistory_partial.
+
+Theorem C16_xhistory_repaired : forall ops, xhist_wfb true ops = true -> xtrace_ok [] ops (xrun xcfg_ref xinit ops).
+Proof. exact xhistory_ref. Qed.
+Print Assumptions C16_xhistory_repaired.
+
+(* findFeaturesBetweenBRK straight after addFeature on a new contig answers from the previous index (the history clause of C16) *)
+Theorem C16_brk_stale_refuted :
+  xhist_wfb true xops_brk = true /\ xrun xcfg_brk xinit xops_brk = [ROk []; ROk []] /\
+  ~ xtrace_ok [] xops_brk (xrun xcfg_brk xinit xops_brk).
+Proof. exact xbrk_refuted. Qed.
+Print Assumptions C16_brk_stale_refuted.
+
+(* what the specification of findNearestRightFeature says: the first in tuple order - in particular with the smallest start - of
+   the features on the requested strand that start after x; [] iff there is none *)
+Theorem C16_near_right_exact : forall all c x q,
+  match spec_near_right all c x q with
+  | [] => forall f, In f (feats_of c all) -> right_of x q f = false
+  | [f] => In f (feats_of c all) /\ right_of x q f = true /\
+           forall g, In g (feats_of c all) -> right_of x q g = true -> fle f g /\ f_start f <= f_start g
+  | _ => False
+  end.
+Proof. exact spec_near_right_bf. Qed.
+Print Assumptions C16_near_right_exact.
+
+(* findNearestLeftFeature is NOT the nearest feature to the left (index clipped with the number of contigs), does not respect
+   the strand (features[0] whatever its strand); findNearestFeature ignores the strand inside a feature *)
+Theorem C16_near_left_refuted :
+  xhist_wfb true xops_nl = true /\
+  xrun xcfg_ref xinit xops_nl = [ROk []; ROk []; ROk []; ROk [nl_b]] /\
+  is_nearest_left [nl_a; nl_b; nl_c] 25 nl_b = false /\ is_nearest_left [nl_a; nl_b; nl_c] 25 nl_c = true.
+Proof. exact near_left_refuted. Qed.
+Print Assumptions C16_near_left_refuted.
+
+Theorem C16_near_left_strand_refuted :
+  xhist_wfb true xops_nl_strand = true /\
+  xrun xcfg_ref xinit xops_nl_strand = [ROk []; ROk []; ROk [mkF 0 1 1 2 0]].
+Proof. exact near_left_strand_refuted. Qed.
+Print Assumptions C16_near_left_strand_refuted.
+
+Theorem C16_near_strand_refuted :
+  xhist_wfb true xops_near_strand = true /\ xrun xcfg_ref xinit xops_near_strand = [ROk []; ROk [mkF 0 5 1 2 0]].
+Proof. exact near_strand_refuted. Qed.
+Print Assumptions C16_near_strand_refuted.
+
+(* non-vacuity: a loader call, nearest lookups on both sides of a later addFeature (the second XNear 0 25 0 is answered after a new
+   contig appeared, the third after a feature was added under the coordinate), BRK after a lookup re-indexed *)
+Example C16_xexample :
+  let a := mkF 10 20 1 1 1 in let b := mkF 12 12 2 2 2 in let c := mkF 5 30 3 1 3 in
+  let ops := [XLoad [Add 0 a; Add 0 b; Add 0 a] None; XNearR 0 0 2; XNear 0 25 0; XNear 0 12 1; XB (Add 1 c); XNearL 1 100 0;
+              XBrk 1 6 7 0; XNear 0 25 0; XB (Add 0 c); XNear 0 25 0; XBrk 0 11 13 0] in
+  xhist_wfb g_autosort_brk ops = true /\
+  xrun xcfg_src xinit ops = [ROk []; ROk [b]; ROk [a]; ROk [a; a; b]; ROk []; ROk [c]; ROk [c]; ROk [b]; ROk []; ROk [c]; ROk [c; a]].
+Proof. vm_compute. repeat split. Qed.
+Print Assumptions C16_xexample.
+
+(* non-vacuity: three printed records (one with a further attribute, one on another contig), select_feature_type on two lines,
+   and a BED line [5, 10): loadBED stores the exclusive BED end as inclusive end (a lookup at 10 finds it) *)
+Example C16_loader_example :
+  let code := intern [[99]; [103; 49]; [103; 50]] in
+  let recs := [mkR [99] 10 20 true [103; 49] [101] []; mkR [99] 12 12 false [103; 50] [101] [([120], [121])]; mkR [100] 1 2 true [103; 49] [101] []] in
+  let g1 := mkG false [99] [101] 11 21 [43] [46] [(s_gene_id, [103; 49])] in
+  let g2 := mkG false [99] [102] 13 13 [45] [46] [(s_gene_id, [103; 50])] in
+  (forall r, In r recs -> frec_wf r) /\
+  gtf_compile code gpar_default 0 (map print_gtf recs) =
+    ([Add 1 (mkF 10 20 2 1 (-1)); Add 1 (mkF 12 12 3 2 (-1)); Add (-1) (mkF 1 2 2 1 (-1))], None) /\
+  gtf_compile code (set_select gpar_default (Some [[101]])) 0 [g1; g2] = ([Add 1 (mkF 10 20 2 1 (-1))], None) /\
+  (let '(o, e) := bed_compile code false [] [mkB false 6 0 [99] 5 10 [103; 49] [43]] in
+   xrun xcfg_src xinit [XLoad o e; XB (At 1 10 0 0); XB (At 1 11 0 0)]) = [ROk []; ROk [mkF 5 10 2 1 0]; ROk []].
+Proof.
+  split; [intros r [<-|[<-|[<-|[]]]]; unfold frec_wf; cbn; lia|]. vm_compute. repeat split.
+Qed.
+Print Assumptions C16_loader_example.
+
+(* the attribute column at character level (Model/C16a.v: split at the semicolons, whitespace separated tokens, exactly two tokens,
+   double quotes removed): parsing the printed pairs - key, blank, quoted value, semicolon, blank - gives back exactly the pairs,
+   in order; clean = not empty, no whitespace, no semicolon, no double quote.  With C16_gtf_roundtrip (whose records carry the
+   pairs [r_more ++ [(gene_id, g)]]) this is the round trip of a feature record through the text of its GTF line. *)
+Theorem C16_gtf_attrs_roundtrip : forall kvs, (forall kv, In kv kvs -> clean (fst kv) = true /\ clean (snd kv) = true) ->
+  parse_attrs (print_attrs kvs) = kvs.
+Proof. exact attrs_roundtrip. Qed.
+Print Assumptions C16_gtf_attrs_roundtrip.
+
+Example C16_attrs_example :
+  let kvs := [(s_gene_id, [103; 49]); ([116; 105; 100], [116; 49; 46; 50])] in
+  (forall kv, In kv kvs -> clean (fst kv) = true /\ clean (snd kv) = true) /\
+  print_attrs kvs = s_gene_id ++ [32; 34; 103; 49; 34; 59; 32; 116; 105; 100; 32; 34; 116; 49; 46; 50; 34; 59; 32] /\
+  parse_attrs (s_gene_id ++ [32; 32; 34; 103; 49; 34; 59; 59; 32; 120; 32; 121; 32; 122; 59; 9; 116; 105; 100; 32; 116; 34; 49; 59; 32; 119]) =
+    [(s_gene_id, [103; 49]); ([116; 105; 100], [116; 49])].
+Proof. split; [intros kv [<-|[<-|[]]]; vm_compute; auto|]. vm_compute. auto. Qed.
+Print Assumptions C16_attrs_example.
